@@ -31,6 +31,17 @@ const (
 	ReadGarbage = 3 // file content is not a number (strconv error)
 	ReadEmpty   = 4 // file is empty
 	ReadMissing = 5 // file does not exist
+	ReadBlank   = 6 // file holds white space only (a lone newline, blanks)
+	ReadNaN     = 7 // file holds "nan" / "inf" / ... : text that a float parser would take
+	ReadRange   = 8 // file holds a well-formed integer far outside the quantity's range (-1, 65535, ...)
+)
+
+// contents served (through fan2go's own parser) for the text based fault modes, rotating per read
+var (
+	garbageTexts = []string{"garbage\n", "n/a\n", "12abc\n", "--\n"}
+	blankTexts   = []string{"\n", " \n", "\t\n", "   "}
+	nanTexts     = []string{"nan\n", "inf\n", "-Inf\n", "NaN\n", "+inf\n"}
+	rangeValues  = []int{-1, 65535, 256, -2147483648, 300, 2147483647}
 )
 
 // WriteRec is one entry of a device's append-only write log.
@@ -58,6 +69,7 @@ type Dev struct {
 	BeforeWrite func(v int)
 	writes      []WriteRec
 	reads       int
+	faultReads  int // reads served in a text / range fault mode (selects the rotating content)
 	t0          time.Time
 	// file != "": the device lives in plain files that /bin/sh scripts of a cmd fan read and write
 	// (<file> value, <file>.log write attempts, <file>.reads read count, <file>.wmode / .rmode fault modes)
@@ -198,11 +210,40 @@ func readErr(mode int, name string) error {
 	return nil
 }
 
+// VReadText implements util.VTextDev: in the content based fault modes the device only decides what the
+// file holds; fan2go's own ReadIntFromFile parses it.
+func (d *Dev) VReadText() (string, bool) {
+	d.mu.Lock()
+	defer d.mu.Unlock()
+	var set []string
+	switch d.ReadMode {
+	case ReadGarbage:
+		set = garbageTexts
+	case ReadBlank:
+		set = blankTexts
+	case ReadNaN:
+		set = nanTexts
+	case ReadEmpty:
+		set = []string{""}
+	default:
+		return "", false
+	}
+	d.reads++
+	d.faultReads++
+	return set[(d.faultReads-1)%len(set)], true
+}
+
 // VRead implements util.VDev.
 func (d *Dev) VRead() (int, error) {
 	d.mu.Lock()
 	d.reads++
 	mode := d.ReadMode
+	if mode == ReadRange {
+		d.faultReads++
+		v := rangeValues[(d.faultReads-1)%len(rangeValues)]
+		d.mu.Unlock()
+		return v, nil
+	}
 	fn := d.ReadFn
 	v := d.val
 	d.mu.Unlock()
